@@ -107,3 +107,4 @@ def _(cls: Const(RootKeyRecord), data: Bytes(lo=4 + 4 * 48 + 96)) -> Opaque():
     ensures(implies(n > 1, all(result._rkht.rkh_list[i] == data[4 + hl * i: 4 + hl * (i + 1)] for i in range(n))), label="table-entries-in-order")
     pure()
     sample_with(lambda rnd: {"cls": RootKeyRecord, "data": bytes([rnd.randrange(1, 5) * 16 + rnd.randrange(1, 3)]) + bytes(rnd.getrandbits(8) for _ in range(320))})
+
